@@ -70,7 +70,9 @@ def run(ctx, mod):
     # 3. correspondence model <-> implementation
     cor = None
     try:
-        cor = mod.correspondence(ctx, model_ok=res["ok"] or getattr(mod, "MODEL_INDEPENDENT_OF_PROOFS", False))
+        # the model is usable when the property file itself checks; a failing shared source-tie file (EXTRA_PROPERTY_FILES) must not
+        # switch the side-by-side run off - that run is what produces the failing input
+        cor = mod.correspondence(ctx, model_ok=res.get("main_ok", res["ok"]) or getattr(mod, "MODEL_INDEPENDENT_OF_PROOFS", False))
     except Exception as e:
         broken.append({"what": "correspondence run crashed", "detail": traceback.format_exc()[-1500:]})
     if cor:
